@@ -111,6 +111,13 @@ def handle (j : Json) : Except String Json := do
       | .ok v => (strs v).toOption
       | .error _ => none
     pure (encStrs (filterEnums (← fieldStrs j "schemaEnums") used))
+  | "packageFrag" =>
+    -- only the guard of `_generate_fragments` is observed here: generators are left empty
+    let names ← fieldStrs j "fragments"
+    let unpacked ← fieldStrs j "unpacked"
+    let op : OpIn := ⟨"", default, unpacked⟩
+    let x : PkgIn := ⟨names.map (fun n => (n, default)), [op], id, "fragments", [], true, [], [], []⟩
+    pure (encRes (fun (o : Option FragOut) => Json.bool o.isSome) (packageFrag id x))
   | "initAll" =>
     pure (encStrs (initAll (← decImports (← j.getObjVal? "imports"))))
   | _ => throw s!"unknown op {op}"
